@@ -55,7 +55,7 @@ class Check(PropertyCheck):
     case_type = "(N * option (Z * N) * list N)"
     shard = 300
     rule = ("frames derived from valid responses and callbacks of the active version by truncation at every length, single-byte "
-            "flips, frame-id and sequence-number substitution, late frames for a command that has already timed out or been cancelled, frame ids defined only by other protocol versions (with their payloads), plus uniformly random byte strings and the empty frame; each with no "
+            "flips, frame-id and sequence-number substitution, late frames for a command that has already timed out or been cancelled, proper frames under numbers an earlier handler object had left timed out, frame ids defined only by other protocol versions (with their payloads), plus uniformly random byte strings and the empty frame; each with no "
             "pending command and with a pending command (same command, another command, same or other sequence number); after each "
             "frame the pending command is answered properly and a fresh command is run to completion; non-trivial = not the "
             "unmodified valid frame; distinct by (version, pending, bytes)")
@@ -70,6 +70,7 @@ class Check(PropertyCheck):
 
     def build_cases(self, tier, rng):
         import bellows.ezsp as E
+        et.LENIENT_QUIRKS = True       # the translation stage is over: the harness goes by the documented key-structure quirk
         versions = VERSIONS_QUICK if tier == "quick" else sorted(E.EZSP._BY_VERSION)
         cases = []
         for v in versions:
@@ -158,11 +159,25 @@ class Check(PropertyCheck):
                 for stale in ("timeout", "cancelled"):
                     for fr in (good, good + b"\x00\x01", inv, other, good[:-1]):
                         cases.append({"v": v, "pending": pname, "stale": stale, "data": fr.hex(), "kind": "late"})
+            # an EARLIER handler object (the one replaced at the last reset / version switch) was left with commands that had
+            # timed out under the numbers 0..3: the handler in use has nothing outstanding, proper frames carrying those
+            # numbers are callbacks for it (or answer its own pending command under number 0)
+            for name in [n for n in ("stackStatusHandler", "getEui64", "incomingMessageHandler", "getNodeId", "messageSentHandler")
+                         if n in cls.COMMANDS]:
+                for sq in (0, 1, 2, 3):
+                    fr = valid_frame(inst, name, sq, rng, "rand")
+                    if len(fr) > 90:
+                        continue
+                    for pname in ((None, "getEui64") if sq == 0 else (None,)):
+                        cases.append({"v": v, "pending": pname, "prior": 4, "data": fr.hex(), "kind": "after-old-handler", "name": name})
             # EmberKeyStruct's deserialisation quirk: a remainder of exactly 24 bytes is padded (IPad in the model)
             for name in ("getKeyTableEntry", "getKey"):
                 if name in cls.COMMANDS:
                     full = valid_frame(inst, name, 0, rng, "rand")
                     hdr_len = 3 if v == 4 else 5
+                    for n in range(hdr_len, len(full)):          # truncation at every length, unsolicited and as the reply
+                        for pname in (None, name):
+                            cases.append({"v": v, "pending": pname, "data": full[:n].hex(), "kind": "keystruct"})
                     for tail_len in (23, 24, 25):
                         fr = full[:hdr_len] + b"\x00" + bytes(rng.randrange(256) for _ in range(tail_len))
                         for pname in (None, name):
@@ -199,6 +214,21 @@ class Check(PropertyCheck):
             except Exception as e:  # noqa
                 res[key] = ["raise", type(e).__name__]
 
+        for _ in range(case.get("prior", 0)):
+            # commands of an earlier handler object that ended by their time-out (numbers 0, 1, ...)
+            if _ == 0:
+                old_ez, _old_log = b.fresh()
+            oproto = old_ez._protocol
+
+            async def old_caller():
+                try:
+                    await oproto.command("getNodeId")
+                except BaseException:  # noqa
+                    pass
+            b.loop.create_task(old_caller())
+            b.loop.settle()
+            b.loop.tick()
+            b.loop.settle()
         task = None
         if case["pending"]:
             task = b.loop.create_task(caller("p", case["pending"]))
@@ -306,6 +336,10 @@ class Check(PropertyCheck):
             if f["p"] is None or f["p"] != ["raise", "InvalidCommandError"]:
                 return (f"an invalidCommand reply under the sequence number of the pending {case['pending']} did not make that call "
                         f"raise the invalid-command error: {f['p']}")
+        if case["kind"] == "after-old-handler" and case["pending"] is None and len(f["cbs"]) != 1:
+            return (f"a proper {case['name']} frame (sequence number {bytes.fromhex(case['data'])[0]}) reached a handler with nothing "
+                    f"outstanding and was delivered to the callbacks {len(f['cbs'])} times; an earlier handler object had been left "
+                    f"with timed-out commands under the numbers 0..{case['prior'] - 1}")
         if case["kind"] == "valid-after-foreign":
             # a proper frame of the active version: it completes its pending command, or is delivered to the callbacks once
             if case["pending"] is not None and (f["p"] is None or f["p"][0] != "ret"):
